@@ -109,7 +109,10 @@ Lemma round_trips_cl_of z t : wfz z = true -> int64 t ->
 Proof.
   intros Hwf Ht. pose proof (zroundtrip_lemma z t Hwf) as R. cbv zeta in R.
   unfold round_trips, cl_of. cbn [cl_kind cl_pre cl_post].
-  destruct R as [[K P]|[K [P|P]]]; rewrite K, P; cbn [kind_of']; rewrite clamp_id by exact Ht; auto.
+  destruct R as [[K P]|[K [P|P]]]; rewrite K, P; cbn [kind_of'].
+  - left. split; [reflexivity|apply clamp_id; exact Ht].
+  - right. split; [reflexivity|left; apply clamp_id; exact Ht].
+  - right. split; [reflexivity|right; apply clamp_id; exact Ht].
 Qed.
 
 (* ================================================================== *)
@@ -214,8 +217,8 @@ Definition gap_zone : zone :=
 Example pre_not_monotone :
   zone_ok gap_zone = true /\
   sec_of (cos 1003599) < sec_of (cos 1003600) /\
-  make_time gap_zone 0 (cos 1003599) = OK (mkCL SKIPPED 1003599 1000000 999999, 0) /\
-  make_time gap_zone 0 (cos 1003600) = OK (mkCL UNIQUE 1000000 1000000 1000000, 0) /\
+  res_fst (make_time gap_zone 0 (cos 1003599)) = OK (mkCL SKIPPED 1003599 1000000 999999) /\
+  res_fst (make_time gap_zone 0 (cos 1003600)) = OK (mkCL UNIQUE 1000000 1000000 1000000) /\
   convert_cs gap_zone 0 (cos 1003599) = OK 1000000 /\
   convert_cs gap_zone 0 (cos 1003600) = OK 1000000.
 Proof. vm_compute. repeat split; reflexivity. Qed.
@@ -250,3 +253,381 @@ Proof.
   exact (load_establishes_certificate_lemma _ _ H G).
 Qed.
 
+(* ================================================================== *)
+(* C03 beyond the table of an extended zone                             *)
+
+Ltac zj := unfold int64, min64, max64, SB in *; lia.
+
+(* the core: an instant s whose civil second L lies in the last 400 civil years
+   of the table, re-dated j*400 years later, converts back to s + j*P400 *)
+Lemma future_rt_core z h2 s j :
+  zone_ok z = true -> z_extended z = true ->
+  (forall l, last_opt (z_trans z) = Some l -> fy (tr_cs l) = z_last_year z /\ P400 <= tr_time l) ->
+  (forall l, last_opt (z_trans z) = Some l -> fy (tr_pcs l) <= z_last_year z) ->
+  0 <= j -> int64 s -> int64 (s + j * P400) ->
+  z_last_year z - 400 < fy (cos (s + zoff (abs_zone z) s)) <= z_last_year z ->
+  exists cl h'',
+    make_time z h2 (cos (s + zoff (abs_zone z) s + 146097 * 86400 * j)) = OK (cl, h'')
+    /\ round_trips cl (s + j * P400).
+Proof.
+  intros Hok Hext H1 H2 Hj Hs Hsj HY. rewrite P400_val in *.
+  pose proof (zone_ok_facts z Hok) as F.
+  pose proof (zone_ok_wfz z Hok) as Hwf.
+  pose proof (zoff_bound z s F) as HO.
+  pose proof (round_trips_cl_of (abs_zone z) s Hwf Hs) as RT.
+  set (L := s + zoff (abs_zone z) s) in *.
+  pose proof (cos_period L j) as CP. cbv zeta in CP.
+  assert (HLj : - SB <= L + 146097 * 86400 * j <= SB) by (unfold L; zj).
+  pose proof (year_ok _ HLj) as I. pose proof (valid_cos (L + 146097 * 86400 * j)) as V.
+  set (cs := cos (L + 146097 * 86400 * j)) in *.
+  assert (Ey : fy cs = fy (cos L) + 400 * j) by (rewrite CP; reflexivity).
+  destruct (Z.eq_dec j 0) as [E0|N0].
+  - (* not re-dated: the table branch *)
+    destruct (make_refines_region z h2 cs Hok V I) as (h'' & HM); [right; left; lia|].
+    assert (Ec : cs = cos L) by (unfold cs; f_equal; lia).
+    rewrite Ec in HM |- *. rewrite sec_of_cos in HM.
+    eexists _, h''. split; [exact HM|]. replace (s + j * 12622780800) with s by lia. exact RT.
+  - (* the extended_ branch *)
+    assert (Hly : z_last_year z < fy cs) by lia.
+    pose proof (make_future_lemma z h2 cs Hok Hext V I Hly H1 H2) as MF. cbv zeta in MF.
+    assert (Ek : (fy cs - z_last_year z - 1) / 400 + 1 = j).
+    { assert (j - 1 = (fy cs - z_last_year z - 1) / 400); [|lia].
+      apply (Z.div_unique_pos _ 400 (j - 1) (fy (cos L) - z_last_year z - 1 + 400)); lia. }
+    rewrite Ek in MF.
+    assert (Ecs' : mkF (fy cs - 400 * j) (fm cs) (fd cs) (fhh cs) (fmm cs) (fss cs) = cos L).
+    { rewrite CP. cbn [fy fm fd fhh fmm fss].
+      destruct (cos L) as [y m d hh mm ss]. cbn [fy fm fd fhh fmm fss]. f_equal. lia. }
+    rewrite Ecs', sec_of_cos, P400_val in MF.
+    destruct MF as (h'' & HM).
+    eexists _, h''. split; [exact HM|].
+    pose proof (zroundtrip_lemma (abs_zone z) s Hwf) as R. cbv zeta in R. fold L in R.
+    unfold round_trips. cbn [cl_kind cl_pre cl_post].
+    destruct R as [[K P]|[K [P|P]]]; rewrite K, P.
+    + left. split; [reflexivity|zj].
+    + right. split; [reflexivity|left; zj].
+    + right. split; [reflexivity|right; zj].
+Qed.
+
+Lemma c03_roundtrip_future_lemma : forall z h h2 t l al h',
+  zone_ok z = true -> z_extended z = true -> last_opt (z_trans z) = Some l ->
+  P400 <= tr_time l ->
+  (* the table's last transition is in local year last_year, and so is the civil second before it
+     (the hypotheses of make_future_lemma) *)
+  fy (tr_cs l) = z_last_year z -> fy (tr_pcs l) <= z_last_year z ->
+  (* the table's tail is periodic where BreakTime and MakeTime re-date differently: from 400
+     years before the last transition to the end of that civil year the offset is the final one *)
+  (forall t', tr_time l - P400 <= t' < tr_time l ->
+     fy (civil_of_seconds (t' + zoff (abs_zone z) t')) <= z_last_year z - 400 ->
+     zoff (abs_zone z) t' = zoff (abs_zone z) (tr_time l)) ->
+  int64 t -> tr_time l <= t ->
+  break_time z h t = OK (al, h') ->
+  exists cl h'', make_time z h2 (al_cs al) = OK (cl, h'') /\
+    ((cl_kind cl = UNIQUE /\ cl_pre cl = t) \/
+     (cl_kind cl = REPEATED /\ (cl_pre cl = t \/ cl_post cl = t))).
+Proof.
+  intros z h h2 t l al h' Hok Hext Hl HP HY HPY Hper Ht Hge HB.
+  pose proof (zone_ok_facts z Hok) as F.
+  pose proof (break_future_lemma z h t l Hok Hext Hl HP Ht Hge) as BF. cbv zeta in BF.
+  set (k := (t - tr_time l) / P400 + 1) in BF. clearbody k.
+  destruct BF as (h1 & dst & ab & HB' & _ & Hr).
+  rewrite HB in HB'. apply OK_inj in HB'. apply pair_equal_spec in HB'. destruct HB' as [Eal _].
+  subst al. cbn [al_cs].
+  assert (H1 : forall l0, last_opt (z_trans z) = Some l0 ->
+                 fy (tr_cs l0) = z_last_year z /\ P400 <= tr_time l0).
+  { intros l0 Hl0. rewrite Hl in Hl0. inversion Hl0; subst l0. auto. }
+  assert (H2 : forall l0, last_opt (z_trans z) = Some l0 -> fy (tr_pcs l0) <= z_last_year z).
+  { intros l0 Hl0. rewrite Hl in Hl0. inversion Hl0; subst l0. auto. }
+  rewrite P400_val in HP, Hper, Hr |- *.
+  remember (t - k * 12622780800) as t' eqn:Et'.
+  remember (zoff (abs_zone z) t') as off eqn:Eoff.
+  pose proof (zoff_bound z t' F) as HO. rewrite <- Eoff in HO.
+  destruct (last_facts z l F Hl) as (_ & HT & Ccs & _ & _).
+  assert (2 ^ 59 = 576460752303423488) as E59 by reflexivity.
+  assert (2 ^ 60 = 1152921504606846976) as E60 by reflexivity.
+  rewrite E59, E60 in HT. clear E59 E60.
+  assert (Hk : 1 <= k) by lia.
+  destruct (before_last_pcs z l t' F Hl ltac:(lia)) as (b & Eb & Hb). rewrite <- Eoff in Hb.
+  assert (YU : fy (cos (t' + off)) <= z_last_year z).
+  { pose proof (cos_year_mono _ _ Hb) as M. rewrite <- Eb in M. lia. }
+  destruct (Z_lt_le_dec (z_last_year z - 400) (fy (cos (t' + off)))) as [A|B].
+  - (* BreakTime and MakeTime re-date by the same number of 400-year blocks *)
+    destruct (future_rt_core z h2 t' k Hok Hext H1 H2 ltac:(lia)) as (cl & h'' & HM & RT).
+    + zj.
+    + rewrite P400_val. replace (t' + k * 12622780800) with t by lia. exact Ht.
+    + rewrite <- Eoff. lia.
+    + exists cl, h''. rewrite <- Eoff in HM. rewrite P400_val in RT.
+      replace (t' + off + 146097 * 86400 * k) with (t + off) in HM by lia.
+      replace (t' + k * 12622780800) with t in RT by lia.
+      split; [exact HM|exact RT].
+  - (* the civil second lies in year last_year - 400: MakeTime re-dates one block less *)
+    assert (Eo : off = zoff (abs_zone z) (tr_time l)).
+    { rewrite Eoff. apply Hper; [lia|]. rewrite <- Eoff. exact B. }
+    pose proof (zoff_after_last z l (tr_time l) F Hl ltac:(lia)) as EoT.
+    pose proof (zoff_after_last z l (t' + 12622780800) F Hl ltac:(lia)) as Eo2.
+    rewrite EoT in Eo.
+    pose proof (cos_period (tr_time l + off_of z (tr_type l)) (-1)) as CPm. cbv zeta in CPm.
+    assert (YL : z_last_year z - 400 <= fy (cos (t' + off))).
+    { pose proof (cos_year_mono (tr_time l + off_of z (tr_type l) + 146097 * 86400 * -1) (t' + off)
+                    ltac:(lia)) as M.
+      rewrite CPm in M. cbn [fy] in M. rewrite <- Ccs, HY in M. lia. }
+    pose proof (cos_period (t' + off) 1) as CP1. cbv zeta in CP1.
+    destruct (future_rt_core z h2 (t' + 12622780800) (k - 1) Hok Hext H1 H2 ltac:(lia))
+      as (cl & h'' & HM & RT).
+    + zj.
+    + rewrite P400_val. replace (t' + 12622780800 + (k - 1) * 12622780800) with t by lia. exact Ht.
+    + rewrite Eo2, <- Eo.
+      replace (t' + 12622780800 + off) with (t' + off + 146097 * 86400 * 1) by lia.
+      rewrite CP1. cbn [fy]. lia.
+    + exists cl, h''. rewrite Eo2, <- Eo in HM. rewrite P400_val in RT.
+      replace (t' + 12622780800 + off + 146097 * 86400 * (k - 1)) with (t + off) in HM by lia.
+      replace (t' + 12622780800 + (k - 1) * 12622780800) with t in RT by lia.
+      split; [exact HM|exact RT].
+Qed.
+
+(* ================================================================== *)
+(* C06 over the whole civil line of an extended zone                    *)
+
+(* number of 400-year blocks MakeTime re-dates a civil second by: 0 up to local
+   year last_year, then 1 for the next 400 civil years, ... *)
+Definition Yr (L : Z) : Z := fy (cos L).
+Definition kb (ly L : Z) : Z := if Yr L <=? ly then 0 else (Yr L - ly - 1) / 400 + 1.
+
+(* convert() of an extended zone at the integer level *)
+Definition zconvert_ext (Zt : zz) (ly L : Z) : Z :=
+  zconvert Zt (L - kb ly L * P400) + kb ly L * P400.
+
+Lemma kb_spec ly L :
+  (kb ly L = 0 /\ Yr L <= ly) \/
+  (1 <= kb ly L /\ ly + 400 * (kb ly L - 1) < Yr L <= ly + 400 * kb ly L).
+Proof.
+  unfold kb. destruct (Z.leb_spec (Yr L) ly); [left; lia|right].
+  pose proof (Z.mul_div_le (Yr L - ly - 1) 400 ltac:(lia)) as D1.
+  pose proof (Z.mul_succ_div_gt (Yr L - ly - 1) 400 ltac:(lia)) as D2.
+  assert (0 <= (Yr L - ly - 1) / 400) by (apply Z.div_pos; lia).
+  set (q := (Yr L - ly - 1) / 400) in *. clearbody q. lia.
+Qed.
+
+Lemma Yr_period L k : Yr (L + k * P400) = Yr L + 400 * k.
+Proof.
+  unfold Yr. replace (L + k * P400) with (L + 146097 * 86400 * k) by (rewrite P400_val; lia).
+  rewrite cos_period. reflexivity.
+Qed.
+
+(* what the table must satisfy where the blocks meet: across the end of local
+   year last_year, converting the first second of the next year (read 400 years
+   earlier and re-dated) does not go back *)
+Definition year_end_ok (Zt : zz) (ly : Z) : Prop :=
+  forall E, Yr E <= ly -> ly < Yr (E + 1) ->
+    zconvert Zt E <= zconvert Zt (E + 1 - P400) + P400.
+
+Lemma zconvert_ext_step Zt ly L : wfz Zt = true -> year_end_ok Zt ly ->
+  zconvert_ext Zt ly L <= zconvert_ext Zt ly (L + 1).
+Proof.
+  intros Hwf HB. unfold zconvert_ext.
+  pose proof (kb_spec ly L) as S1. pose proof (kb_spec ly (L + 1)) as S2.
+  pose proof (cos_year_mono L (L + 1) ltac:(lia)) as M. fold (Yr L) (Yr (L + 1)) in M.
+  set (j := kb ly L) in *. set (k := kb ly (L + 1)) in *. clearbody j k.
+  destruct (Z.eq_dec j k) as [E|N].
+  - subst k. pose proof (zconvert_mono_lemma Zt (L - j * P400) (L + 1 - j * P400) Hwf ltac:(lia)). lia.
+  - assert (Hjk : j < k) by lia.
+    pose proof (Yr_period L (- (k - 1))) as P1. pose proof (Yr_period (L + 1) (- (k - 1))) as P2.
+    pose proof (Yr_period (L + - (k - 1) * P400) 1) as P3.
+    pose proof (cos_year_mono (L + 1 + - (k - 1) * P400) (L + - (k - 1) * P400 + 1 * P400)
+                  ltac:(rewrite P400_val; lia)) as M2.
+    fold (Yr (L + 1 + - (k - 1) * P400)) (Yr (L + - (k - 1) * P400 + 1 * P400)) in M2.
+    assert (Ej : j = k - 1) by lia.
+    pose proof (HB (L + - (k - 1) * P400)) as B.
+    replace (L + - (k - 1) * P400 + 1) with (L + 1 + - (k - 1) * P400) in B by lia.
+    specialize (B ltac:(lia) ltac:(lia)).
+    subst j.
+    replace (L - (k - 1) * P400) with (L + - (k - 1) * P400) by lia.
+    replace (L + 1 - k * P400) with (L + 1 + - (k - 1) * P400 - P400) by lia.
+    lia.
+Qed.
+
+Lemma zconvert_ext_mono_lemma Zt ly L1 L2 : wfz Zt = true -> year_end_ok Zt ly -> L1 <= L2 ->
+  zconvert_ext Zt ly L1 <= zconvert_ext Zt ly L2.
+Proof.
+  intros Hwf HB Hle.
+  assert (forall n L, zconvert_ext Zt ly L <= zconvert_ext Zt ly (L + Z.of_nat n)) as A.
+  { induction n as [|n IH]; intros L.
+    - replace (L + Z.of_nat 0) with L by lia. lia.
+    - pose proof (IH L). pose proof (zconvert_ext_step Zt ly (L + Z.of_nat n) Hwf HB).
+      replace (L + Z.of_nat (S n)) with (L + Z.of_nat n + 1) by lia. lia. }
+  specialize (A (Z.to_nat (L2 - L1)) L1).
+  replace (L1 + Z.of_nat (Z.to_nat (L2 - L1))) with L2 in A by lia. exact A.
+Qed.
+
+(* zconvert stays within 26 hours of the civil second *)
+Lemma zconvert_bounds z L : zfacts z -> L - 93600 <= zconvert (abs_zone z) L <= L + 93600.
+Proof.
+  intros F. pose proof (zmake_bounds z L F) as B. cbv zeta in B.
+  unfold zconvert. destruct (zk (zmake (abs_zone z) L)); lia.
+Qed.
+
+(* convert() on every civil second of an extended zone whose table ends in local year last_year *)
+Lemma convert_ext_refines z h cs l :
+  zone_ok z = true -> z_extended z = true -> last_opt (z_trans z) = Some l ->
+  P400 <= tr_time l -> fy (tr_cs l) = z_last_year z -> fy (tr_pcs l) <= z_last_year z ->
+  valid_fields cs = true -> int64 (fy cs) ->
+  convert_cs z h cs = OK (Z.max min64 (Z.min max64 (zconvert_ext (abs_zone z) (z_last_year z) (sec_of cs)))).
+Proof.
+  intros Hok Hext Hl HP HY HPY V I.
+  pose proof (zone_ok_facts z Hok) as F.
+  unfold zconvert_ext, kb, Yr. rewrite (cos_sec_of cs V).
+  destruct (Z.leb_spec (fy cs) (z_last_year z)) as [Hin|Hly].
+  - rewrite (convert_refines z h cs Hok V I (or_intror Hin)).
+    replace (sec_of cs - 0 * P400) with (sec_of cs) by lia.
+    replace (zconvert (abs_zone z) (sec_of cs) + 0 * P400) with (zconvert (abs_zone z) (sec_of cs)) by lia.
+    reflexivity.
+  - assert (H1 : forall l0, last_opt (z_trans z) = Some l0 ->
+                   fy (tr_cs l0) = z_last_year z /\ P400 <= tr_time l0).
+    { intros l0 Hl0. rewrite Hl in Hl0. inversion Hl0; subst l0. auto. }
+    assert (H2 : forall l0, last_opt (z_trans z) = Some l0 -> fy (tr_pcs l0) <= z_last_year z).
+    { intros l0 Hl0. rewrite Hl in Hl0. inversion Hl0; subst l0. auto. }
+    pose proof (make_future_lemma z h cs Hok Hext V I Hly H1 H2) as MF. cbv zeta in MF.
+    (* the number of blocks is at least one *)
+    pose proof (Z.mul_div_le (fy cs - z_last_year z - 1) 400 ltac:(lia)) as D1.
+    pose proof (Z.mul_succ_div_gt (fy cs - z_last_year z - 1) 400 ltac:(lia)) as D2.
+    assert (D0 : 0 <= (fy cs - z_last_year z - 1) / 400) by (apply Z.div_pos; lia).
+    set (k := (fy cs - z_last_year z - 1) / 400 + 1) in *.
+    assert (Hk : 1 <= k) by (unfold k; lia).
+    assert (Hky : z_last_year z + 400 * (k - 1) < fy cs <= z_last_year z + 400 * k) by (unfold k; lia).
+    clearbody k. clear D0 D1 D2.
+    (* the re-dated civil second *)
+    pose proof (cos_period (sec_of cs) (- k)) as CP. cbv zeta in CP. rewrite (cos_sec_of cs V) in CP.
+    replace (fy cs + 400 * - k) with (fy cs - 400 * k) in CP by lia.
+    rewrite <- CP in MF. rewrite sec_of_cos in MF.
+    replace (sec_of cs + 146097 * 86400 * - k) with (sec_of cs - k * P400) in * by (rewrite P400_val; lia).
+    set (L' := sec_of cs - k * P400) in *.
+    destruct MF as (h' & HM).
+    unfold convert_cs. rewrite HM. cbn [bind cl_kind cl_pre cl_trans].
+    (* lower bound: L' is later than year 1570 *)
+    assert (E0 : fy (cos 0) = 1970) by (vm_compute; reflexivity).
+    assert (Em : fy (cos (- P400)) = 1570) by (vm_compute; reflexivity).
+    destruct (last_facts z l F Hl) as (_ & HT & Ccs & _ & _).
+    destruct (zf_trs z F l) as [Hil _].
+    { destruct (last_opt_nth _ _ Hl) as [Hln _]. eapply nth_error_In; eauto. }
+    pose proof (off_bound z _ F Hil) as HOl.
+    assert (HLY : 1970 <= z_last_year z).
+    { rewrite <- HY, Ccs, <- E0. apply cos_year_mono. rewrite P400_val in HP. lia. }
+    assert (HL' : - P400 < L').
+    { apply cos_year_lt. rewrite Em, CP. cbn [fy]. lia. }
+    pose proof (zconvert_bounds z L' F) as ZB.
+    f_equal.
+    transitivity (Z.min max64 (zconvert (abs_zone z) L' + k * P400)).
+    + unfold zconvert. destruct (zk (zmake (abs_zone z) L')); reflexivity.
+    + rewrite P400_val in *. unfold min64, max64 in *. lia.
+Qed.
+
+Lemma c06_convert_mono_future_lemma : forall z h1 h2 cs1 cs2 l,
+  zone_ok z = true -> z_extended z = true -> last_opt (z_trans z) = Some l ->
+  P400 <= tr_time l -> fy (tr_cs l) = z_last_year z -> fy (tr_pcs l) <= z_last_year z ->
+  (* the table's tail is consistent where the 400-year blocks meet (the end of local year last_year) *)
+  (forall E, fy (civil_of_seconds E) <= z_last_year z -> z_last_year z < fy (civil_of_seconds (E + 1)) ->
+     zconvert (abs_zone z) E <= zconvert (abs_zone z) (E + 1 - P400) + P400) ->
+  valid_fields cs1 = true -> valid_fields cs2 = true -> int64 (fy cs1) -> int64 (fy cs2) ->
+  sec_of cs1 < sec_of cs2 ->
+  exists a b, convert_cs z h1 cs1 = OK a /\ convert_cs z h2 cs2 = OK b /\ a <= b.
+Proof.
+  intros z h1 h2 cs1 cs2 l Hok Hext Hl HP HY HPY HB V1 V2 I1 I2 Hlt.
+  do 2 eexists. split; [eapply convert_ext_refines; eassumption|].
+  split; [eapply convert_ext_refines; eassumption|].
+  pose proof (zconvert_ext_mono_lemma (abs_zone z) (z_last_year z) (sec_of cs1) (sec_of cs2)
+                (zone_ok_wfz z Hok) HB ltac:(lia)).
+  lia.
+Qed.
+
+(* The tail hypothesis of c03_roundtrip_future_lemma cannot be dropped for an
+   arbitrary certified zone: a table whose only late transition (2400-06-01,
+   +1:00 -> +0:00) has no image 400 years earlier.  BreakTime at T+100 reads
+   the offset of 2000 (+1:00), MakeTime of the resulting civil second stays in
+   the table and answers T+3700. *)
+Definition lone_T : Z := sec_of (mkF 2400 6 1 0 0 0).
+Definition lone_zone : zone :=
+  mkZone [mkTr (-1000000) 1 (cos (-1000000 + 3600)) (cos (-1000001));
+          mkTr lone_T 0 (cos lone_T) (cos (lone_T - 1 + 3600))]
+         [mkTT 0 (cos max64) (cos min64) false 0;
+          mkTT 3600 (cos (max64 + 3600)) (cos (min64 + 3600)) true 0]
+         0 [0] [] true 2400.
+
+Example future_needs_periodic_tail :
+  zone_ok lone_zone = true /\ z_extended lone_zone = true /\
+  (exists l, last_opt (z_trans lone_zone) = Some l /\ P400 <=? tr_time l = true /\
+             fy (tr_cs l) = z_last_year lone_zone /\ fy (tr_pcs l) = z_last_year lone_zone) /\
+  res_fst (break_time lone_zone 0 (lone_T + 100))
+    = OK (mkAL (cos (lone_T + 3700)) 3600 true []) /\
+  res_fst (make_time lone_zone 0 (cos (lone_T + 3700)))
+    = OK (mkCL UNIQUE (lone_T + 3700) (lone_T + 3700) (lone_T + 3700)).
+Proof.
+  split; [vm_compute; reflexivity|]. split; [reflexivity|].
+  split; [eexists; split; [reflexivity|]; vm_compute; auto|].
+  split; vm_compute; reflexivity.
+Qed.
+
+(* ================================================================== *)
+(* The far-future theorems for every accepted file                      *)
+
+Lemma accepted_c03_roundtrip_future_lemma : forall bs z h h2 t l al h',
+  load_bytes bs = OK (Some z) ->
+  gaps_wide (zz_doff (abs_zone z)) (zz_tr (abs_zone z)) = true ->
+  z_extended z = true -> last_opt (z_trans z) = Some l ->
+  P400 <= tr_time l -> fy (tr_cs l) = z_last_year z -> fy (tr_pcs l) <= z_last_year z ->
+  (forall t', tr_time l - P400 <= t' < tr_time l ->
+     fy (civil_of_seconds (t' + zoff (abs_zone z) t')) <= z_last_year z - 400 ->
+     zoff (abs_zone z) t' = zoff (abs_zone z) (tr_time l)) ->
+  int64 t -> tr_time l <= t ->
+  break_time z h t = OK (al, h') ->
+  exists cl h'', make_time z h2 (al_cs al) = OK (cl, h'') /\
+    ((cl_kind cl = UNIQUE /\ cl_pre cl = t) \/
+     (cl_kind cl = REPEATED /\ (cl_pre cl = t \/ cl_post cl = t))).
+Proof.
+  intros bs z h h2 t l al h' H G. apply c03_roundtrip_future_lemma.
+  exact (load_establishes_certificate_lemma _ _ H G).
+Qed.
+
+Lemma accepted_c06_convert_mono_future_lemma : forall bs z h1 h2 cs1 cs2 l,
+  load_bytes bs = OK (Some z) ->
+  gaps_wide (zz_doff (abs_zone z)) (zz_tr (abs_zone z)) = true ->
+  z_extended z = true -> last_opt (z_trans z) = Some l ->
+  P400 <= tr_time l -> fy (tr_cs l) = z_last_year z -> fy (tr_pcs l) <= z_last_year z ->
+  (forall E, fy (civil_of_seconds E) <= z_last_year z -> z_last_year z < fy (civil_of_seconds (E + 1)) ->
+     zconvert (abs_zone z) E <= zconvert (abs_zone z) (E + 1 - P400) + P400) ->
+  valid_fields cs1 = true -> valid_fields cs2 = true -> int64 (fy cs1) -> int64 (fy cs2) ->
+  sec_of cs1 < sec_of cs2 ->
+  exists a b, convert_cs z h1 cs1 = OK a /\ convert_cs z h2 cs2 = OK b /\ a <= b.
+Proof.
+  intros bs z h1 h2 cs1 cs2 l H G. apply c06_convert_mono_future_lemma.
+  exact (load_establishes_certificate_lemma _ _ H G).
+Qed.
+
+Print Assumptions c03_roundtrip_impl_lemma.
+Print Assumptions c06_convert_mono_impl_lemma.
+Print Assumptions c06_convert_mono_impl_lt64_lemma.
+Print Assumptions pre_not_monotone.
+Print Assumptions accepted_c03_roundtrip_lemma.
+Print Assumptions accepted_c06_convert_mono_lemma.
+Print Assumptions c03_roundtrip_future_lemma.
+Print Assumptions c06_convert_mono_future_lemma.
+Print Assumptions future_needs_periodic_tail.
+Print Assumptions accepted_c03_roundtrip_future_lemma.
+Print Assumptions accepted_c06_convert_mono_future_lemma.
+
+(* Status: everything above is proved; `Print Assumptions` reports "Closed under
+   the global context" for each theorem.
+   - c03_roundtrip_impl_lemma needs no condition on the civil year: an instant
+     before the last transition shows a civil second <= last.prev_civil_sec
+     (ZoneZProofs.f_upper), and MakeTime enters the extended_ branch only beyond
+     prev_civil_sec (make_refines_region), so the year test is never reached.
+   - C06 is stated for convert() (convert_cs: trans for SKIPPED, pre otherwise).
+     The `pre` component alone is not monotone (pre_not_monotone).
+   - Beyond the table (c03_roundtrip_future_lemma, c06_convert_mono_future_lemma)
+     the certificate says nothing about last_year or about the table's tail
+     repeating with period 400 years, so these carry make_future_lemma's
+     hypotheses on the last transition and one hypothesis each on the tail
+     around the end of local year last_year - 400 / last_year
+     (future_needs_periodic_tail shows the former cannot be dropped).  Zones of
+     known finding F9 (2^31-1 sentinel behind the generated window, e.g.
+     LoadCert.wide_footer_bytes: last_year = -18267311669, last transition in
+     2038) violate fy (tr_cs l) = z_last_year z and indeed fail the round trip at
+     2^62 and at max64. *)
